@@ -37,7 +37,7 @@ ASSUMPTIONS = [
     "qq_depth be ignored; a qq_depth keyword overrides configured min/max).",
 ]
 MIN_NONTRIVIAL = {'quick': 3000, 'thorough': 60000}
-REQUIRED_MONITORS = ['roundtrip', 'unknown-name',
+REQUIRED_MONITORS = ['roundtrip', 'unknown-name', 'wait_to_parse',
                      'unknown-name:config-attribute', 'channel:A=B', 'channel:A=C',
                      'channel:split', 'channel:cross',
                      'channel:K', 'channel:M', 'tract:A=B', 'tract:A=C',
@@ -551,10 +551,64 @@ def singles():
             yield s, st
 
 
+def run_wait(ctx, pytrs):
+    """`wait_to_parse` is a setting like the others: given in the config
+    string (or a Config object) at creation it has the effect of the
+    keyword; the keyword wins over the config."""
+    P = pytrs.PLSSDesc
+    text = 'T154N-R97W Sec 14: NE/4, Sec 15: W/2'
+    want = [('154n97w14', 'NE/4'), ('154n97w15', 'W/2')]
+    # (label, constructor, should it have parsed at creation?)
+    rows = [
+        ("keyword wait_to_parse=True", lambda: P(text, wait_to_parse=True), False),
+        ("config 'wait_to_parse'", lambda: P(text, config='wait_to_parse'), False),
+        ("config 'wait_to_parse.True'",
+         lambda: P(text, config='wait_to_parse.True'), False),
+        ("Config('wait_to_parse') object",
+         lambda: P(text, config=pytrs.Config('wait_to_parse')), False),
+        ("config 'wait_to_parse,parse_qq,n,w'",
+         lambda: P(text, config='wait_to_parse,parse_qq,n,w'), False),
+        ("config 'wait_to_parse.False'",
+         lambda: P(text, config='wait_to_parse.False'), True),
+        ("no setting", lambda: P(text), True),
+        ("keyword False over config 'wait_to_parse'",
+         lambda: P(text, config='wait_to_parse', wait_to_parse=False), True),
+        ("keyword True over config 'wait_to_parse.False'",
+         lambda: P(text, config='wait_to_parse.False', wait_to_parse=True),
+         False),
+    ]
+    for label, make, parsed_at_creation in rows:
+        case = {'kind': 'wait', 'label': label}
+        ctx.hit('wait_to_parse')
+        ctx.case(['wait', label], True, shape='wait_to_parse',
+                 sample={'channel': label})
+        with ctx.guard(case):
+            d = make()
+            got = [(t.trs, t.desc) for t in d.tracts]
+            if parsed_at_creation and got != want:
+                ctx.violation('wait_to_parse-channel', case,
+                              f"{label}: expected the description parsed at "
+                              f"creation, tracts are {got}", dedup=label)
+                continue
+            if not parsed_at_creation and got:
+                ctx.violation('wait_to_parse-channel', case,
+                              f"{label}: the description was parsed at "
+                              f"creation ({got}) although it was told to "
+                              f"wait", dedup=label)
+                continue
+            d.parse()
+            got = [(t.trs, t.desc) for t in d.tracts]
+            if got != want:
+                ctx.violation('wait_to_parse-channel', case,
+                              f"{label}: after parse() tracts are {got}",
+                              dedup=label + '|after')
+
+
 def run_shard(shard, ctx):
     pytrs, log = _setup(ctx)
     fam = shard['family']
     if fam == 'single':
+        run_wait(ctx, pytrs)
         for s, st in singles():
             for desc in WITNESS[s] + [COMPOSITE]:
                 run_plss(st, desc, ctx, log, pytrs, s)
@@ -609,7 +663,9 @@ def run_shard(shard, ctx):
 
 def replay(case, ctx):
     pytrs, log = _setup(ctx)
-    if case['kind'] == 'plss':
+    if case['kind'] == 'wait':
+        run_wait(ctx, pytrs)
+    elif case['kind'] == 'plss':
         run_plss(case['settings'], case['desc'], ctx, log, pytrs,
                  case.get('label', 'replay'))
     elif case['kind'] == 'tract':
